@@ -44,6 +44,7 @@ def plan(tier, seed):
     ch.append({'k': 'e2e_json'})
     ch.append({'k': 'e2e_cli'})
     ch.append({'k': 'numbers'})
+    ch.append({'k': 'equal_doc'})
     if tier == 'thorough':
         for t in TOKENS9:
             for t2 in TOKENS9:
@@ -101,7 +102,71 @@ def eval_case(case):
         out.extend(_cli(case, pt))
     elif case['k'] == 'numbers':
         out.extend(_numbers(case, pt))
+    elif case['k'] == 'equal_doc':
+        out.extend(_equal_doc(case, pt))
     return out
+
+
+class _JsonSpy:
+    """Stands in for the name `json` inside pel.peltool.peltool: records what the decoder hands to the serialiser."""
+
+    def __init__(self, real):
+        self._real = real
+        self.dumped = []
+
+    def dumps(self, obj, *a, **kw):
+        self.dumped.append(obj)
+        return self._real.dumps(obj, *a, **kw)
+
+    def __getattr__(self, name):
+        return getattr(self._real, name)
+
+
+def _mismatch(a, b, path='$'):
+    """first difference between the decoded document (a) and the document read back from the text (b); key types count"""
+    if isinstance(a, dict):
+        if not isinstance(b, dict):
+            return '%s: object printed as %s' % (path, type(b).__name__)
+        ka, kb = list(a.keys()), list(b.keys())
+        if ka != kb:
+            return '%s: keys %r printed as %r' % (path, ka[:8], kb[:8])
+        for k in ka:
+            m = _mismatch(a[k], b[k], '%s.%s' % (path, k))
+            if m:
+                return m
+        return None
+    if isinstance(a, (list, tuple)):
+        if not isinstance(b, list) or len(a) != len(b):
+            return '%s: list of %d printed as %r' % (path, len(a), b if not isinstance(b, list) else len(b))
+        for i, (x, y) in enumerate(zip(a, b)):
+            m = _mismatch(x, y, '%s[%d]' % (path, i))
+            if m:
+                return m
+        return None
+    if type(a) is not type(b) or a != b:
+        return '%s: %r printed as %r' % (path, a, b)
+    return None
+
+
+def _equal_doc(case, pt):
+    """The statement itself: whatever document the decoder built, the text printed for it parses back to an equal one."""
+    import json as real_json
+    spy = _JsonSpy(real_json)
+    pt.json = spy
+    try:
+        r = decode.parse(pelgen.encode_pel(pelgen.pel_from_spec(case['spec'])), plugins=case.get('plugins', True))
+    finally:
+        pt.json = real_json
+    if r['kind'] == 'badjson':
+        return [{'key': 'C06:doc-not-json', 'what': 'printed text is not JSON: %s' % r['msg'], 'case': case}]
+    if r['kind'] != 'doc':
+        return [{'key': 'C06:e2e-not-decoded', 'what': '%s %s' % (r['kind'], r.get('msg')), 'case': case}]
+    if not spy.dumped:
+        return []        # the decoder does not serialise through its module-level json name: this oracle cannot observe it
+    m = _mismatch(spy.dumped[-1], r['doc'])
+    if m:
+        return [{'key': 'C06:doc-changed', 'what': 'the printed text does not parse back to the decoded document: %s' % m, 'case': case}]
+    return []
 
 
 # JSON user data whose numbers sit at the edges of what the printed document can hold (RFC 8259 has no NaN/Infinity)
@@ -115,7 +180,7 @@ NUMBER_TEXTS = ['0', '-0', '-0.0', '1e22', '1E+22', '0.1', '1e-400', '1.79769313
 def _numbers(case, pt):
     out = []
     texts = case['texts']
-    with tempfile.TemporaryDirectory(prefix='c06n_', dir=clidrv.scratch_root()) as d:
+    with tempfile.TemporaryDirectory(prefix='c06n_', dir=clidrv.odd_root()) as d:
         os.mkdir(os.path.join(d, 'in'))
         os.mkdir(os.path.join(d, 'out'))
         specs = []
@@ -208,7 +273,7 @@ def _cli(case, pt):
     """Reference codes / text through the real CLI modes -l, -a, -f, -j."""
     out = []
     codes = case['codes']
-    with tempfile.TemporaryDirectory(prefix='c06_', dir=clidrv.scratch_root()) as d:
+    with tempfile.TemporaryDirectory(prefix='c06_', dir=clidrv.odd_root()) as d:
         os.mkdir(os.path.join(d, 'in'))
         os.mkdir(os.path.join(d, 'out'))
         want = {}
@@ -357,6 +422,16 @@ def run_chunk(chunk):
             for t in itertools.product(toks, repeat=n):
                 s = ''.join(t)
                 _do(res, {'k': 'e2e', 'via': via, 's': s}, s, every=499)
+    elif k == 'equal_doc':
+        specs = pelgen.base_pel_specs()
+        unknown = [{'t': 'ZZ', 'payload': '0a0b0c'}, {'t': 'ud', 'payload': '01'}, {'t': '\x01\x02', 'payload': 'ff'},
+                   {'t': 'ZZ', 'payload': '0d'}, {'t': 'DH', 'payload': '00'}, {'t': '{"', 'payload': '22'}]
+        specs.append({'eid': 0x50000A01, 'plid': 0x50000A01, 'sections': [{'t': 'PS'}] + unknown})
+        specs.append({'eid': 0x50000A02, 'plid': 0x50000A02, 'creator': 'H', 'comp': 0x4142, 'sections': unknown[:3] + [
+            {'t': 'ED', 'creator': 'x', 'comp': 0x2000, 'sub': 3, 'payload': b'"quoted": {text}\n\\ back'.hex()}]})
+        for spec in specs:
+            for plugins in (True, False):
+                _do(res, {'k': 'equal_doc', 'spec': spec, 'plugins': plugins}, '"doc', every=5)
     elif k == 'numbers':
         for i in range(0, len(NUMBER_TEXTS), 4):
             grp = NUMBER_TEXTS[i:i + 4]
@@ -381,7 +456,7 @@ def _encodings(res):
     import subprocess
     pt = impl.ensure(False)
     n_ok = 0
-    with tempfile.TemporaryDirectory(prefix='c06e_', dir=clidrv.scratch_root()) as d:
+    with tempfile.TemporaryDirectory(prefix='c06e_', dir=clidrv.odd_root()) as d:
         os.mkdir(os.path.join(d, 'in'))
         for vi, val in enumerate(UNI_VALUES):
             value = {'text': val, val.replace('\ud83d', 'k').replace('\udc00', 'k'): 'as key', 'list': [val]}
